@@ -97,7 +97,8 @@ CORE = {
         "quick": {
             "mc": [{"acts": ["lreq", "addcb", "addrcb", "cbrecv"], "maxlen": 5, "prefix": "PrefixP1", "maxreq": 2}],
             "gen": [{"acts": ["lreq", "addcb", "addrcb", "cbrecv"], "maxlen": 5, "prefix": "PrefixP1", "maxreq": 2},
-                    {"acts": ["lreq", "addcb", "cbrecv"], "maxlen": 4, "prefix": "PrefixP1P2", "maxreq": 2}],
+                    {"acts": ["lreq", "addcb", "cbrecv"], "maxlen": 4, "prefix": "PrefixP1P2", "maxreq": 2},
+                    {"acts": ["lreq", "addcb", "cbrecv"], "tiny": ["cbrecv"], "maxlen": 4, "prefix": "PrefixP1", "maxreq": 2, "view": None}],
             "sim": [{"acts": DISC + ["lreq", "addcb", "addrcb", "cbrecv", "entadd", "setdata"], "maxlen": 25, "num": 300, "maxreq": 3}],
             "cap": 40000,
         },
@@ -223,3 +224,5 @@ def core_runner(prop):
 
 
 PROFILES = {p: {"run": core_runner(p)} for p in CORE}
+import sender
+PROFILES["C13"] = {"run": sender.run}
